@@ -51,6 +51,31 @@ CLAIMED = {
         "Trusted: symx + z3; 'finite' is algebraic definedness in exact arithmetic (float overflow/underflow is outside); shapes "
         "(2,2),(3,2),(2,3) with all permutations; transport stub canonical under relabelling; undischarged bounds are listed in the evidence.",
         "DESIGN.md §4 C13", None),
+    "C08": (
+        "Bounded symbolic model checking of the split search: the current .pyx text (mechanically translated; translator validated "
+        "against the compiled extension on random states in every run) runs on a FULLY symbolic symmetric kernel over an exhaustive "
+        "enumeration of discrete tree states (tie patterns x sample->leaf partitions x leaf->cluster partitions x K_max x "
+        "min_samples_leaf); per feasible path (QF_LRA) the claimed gain equals J(after)-J(before) of the returned split and one "
+        "disjunctive query shows no admissible star/double-star/switch/reallocation alternative increases J more.",
+        "Trusted: symx + z3; the oracle's enumeration of admissible alternatives (written from the property statement); exact reals; "
+        "n<=4 exhaustive at d=1 (+ listed n=5/6 and d=2 states); the .so cannot be rebuilt offline, so the .pyx source is what is "
+        "judged and counterexamples are replayed on both.  Three known findings (double-star gain, its effect on the choice, "
+        "reallocation bookkeeping) are listed in known_findings.json.",
+        "DESIGN.md §4 C08", None),
+    "C09": (
+        "Exhaustive exploration of the real Kauri.fit growth loop against a nondeterministic contract stub of find_best_split "
+        "(any admissible split or stop, chosen by a forked symbolic integer; any feature subset): on every path all structural "
+        "limits, the tree/partition invariants, routing of the training data and of a fresh SYMBOLIC point through the real "
+        "Tree.predict, and score == J(predicted labels) for a symbolic kernel are checked.",
+        "Trusted: the contract stub (its faithfulness to the real search is C08); data enter through order/ties only (listed datasets "
+        "n<=4, d<=2); hyper-parameter corners (quick) / full small grid (thorough); validation stubbed; float32/64 effects outside.",
+        "DESIGN.md §4 C09", "symbolic execution of the repository source (symx): forked symbolic-integer choices + symbolic query point, path-wise evaluation of post-conditions (z3 feasibility)"),
+    "C19": (
+        "Every binary tree shape with <=4 leaves (5 thorough) over 3 features, built through the real Tree._add_child; the real "
+        "print_kauri_tree output is read back by an independent parser and applied to a SYMBOLIC point with every comparison "
+        "forked; on every feasible path it must agree with the real Tree.predict; refusals checked concretely.",
+        "Trusted: the reader of the printed layout (written from the documented layout); thresholds concrete (0.0, negative, repeated).",
+        "DESIGN.md §4 C19", "symbolic execution of the repository source (symx): symbolic query point forked through printed rules and Tree.predict (z3 feasibility)"),
 }
 
 NOT_APPLICABLE = {
